@@ -62,7 +62,7 @@ impl Params {
     pub fn base_quick() -> Params {
         Params {
             leaves: (2, 5),
-            leaf_kinds: LeafKind::ALL.to_vec(),
+            leaf_kinds: { let mut k = LeafKind::ALL.to_vec(); k.push(LeafKind::ZM); k.push(LeafKind::ZR); k },
             all_rw_pct: 35,
             unit_pct: 30,
             max_units: 2,
@@ -201,7 +201,11 @@ impl<'p> Gen<'p> {
 
     /// a duplicate-free target over exactly `elems` (in a random arrangement)
     pub fn target_over(&mut self, w: &WorldSpec, elems: &[Elem], depth: usize, allow_single: bool) -> TSpec {
-        if elems.len() == 1 && allow_single && self.rng.chance(self.p.single_pct.max(1), 100) {
+        let standalone = |e: &Elem| match e {
+            Elem::Leaf(l) => w.leaves[*l].standalone(),
+            Elem::Unit(_) => true,
+        };
+        if elems.len() == 1 && allow_single && standalone(&elems[0]) && self.rng.chance(self.p.single_pct.max(1), 100) {
             return Self::elem_spec(&elems[0]);
         }
         let mut es: Vec<Elem> = elems.to_vec();
@@ -795,7 +799,11 @@ pub fn gen_quiescent(seed: u64, nonacq: bool) -> Scenario {
         if c < 45 {
             continue; // free
         }
-        let spec = match e { Elem::Leaf(l) => TSpec::Leaf(*l), Elem::Unit(u) => TSpec::Unit(*u) };
+        let spec = match e {
+            Elem::Leaf(l) if !w.leaves[*l].standalone() => TSpec::Coll { kind: CollKind::Boxed, cont: ContKind::Vec, members: vec![TSpec::Leaf(*l)], poison: false },
+            Elem::Leaf(l) => TSpec::Leaf(*l),
+            Elem::Unit(u) => TSpec::Unit(*u),
+        };
         let rw = w.all_rw(&spec);
         w.targets.push(spec);
         let ti = w.targets.len() - 1;
@@ -902,7 +910,11 @@ pub fn gen_c12(seed: u64) -> Scenario {
             break;
         }
         let e = g.rng.pick(&all).clone();
-        let spec = match &e { Elem::Leaf(l) => TSpec::Leaf(*l), Elem::Unit(u) => TSpec::Unit(*u) };
+        let spec = match &e {
+            Elem::Leaf(l) if !w.leaves[*l].standalone() => TSpec::Coll { kind: CollKind::Ref, cont: ContKind::Vec, members: vec![TSpec::Leaf(*l)], poison: false },
+            Elem::Leaf(l) => TSpec::Leaf(*l),
+            Elem::Unit(u) => TSpec::Unit(*u),
+        };
         let rw = w.all_rw(&spec);
         w.targets.push(spec);
         let ti = w.targets.len() - 1;
@@ -989,7 +1001,7 @@ pub fn c11_variants(base: &Scenario, seed: u64) -> Vec<Scenario> {
                     // while the section is running, another thread's raw try on one of its locks
                     // panics (that lock is killed under the holder's feet); then the section panics
                     let owned = s.world.owned_leaves();
-                    let cands: Vec<usize> = s.world.flatten(&s.world.targets[a.target], None).iter().map(|f| f.lid).filter(|l| !owned.contains(l)).collect();
+                    let cands: Vec<usize> = s.world.flatten(&s.world.targets[a.target], None).iter().map(|f| f.lid).filter(|l| !owned.contains(l) && s.world.leaves[*l].standalone()).collect();
                     if !cands.is_empty() {
                         let l = cands[rng.below(cands.len())];
                         s.world.targets.push(TSpec::Leaf(l));
@@ -1037,7 +1049,7 @@ pub fn gen_c16(seed: u64) -> Scenario {
         let n = g.rng.range(0, 4);
         let mut lids = Vec::new();
         for _ in 0..n {
-            let kinds: Vec<LeafKind> = LeafKind::ALL.iter().copied().filter(|k| !all_rw || k.is_rw()).collect();
+            let kinds: Vec<LeafKind> = LeafKind::ALL.iter().copied().chain([LeafKind::ZM, LeafKind::ZR]).filter(|k| !all_rw || k.is_rw()).collect();
             w.leaves.push(*g.rng.pick(&kinds));
             lids.push(w.leaves.len() - 1);
         }
